@@ -27,8 +27,12 @@ CONSTANT ZeroPowEarlyExit,  \* as pinned: pow() returned the base for a zero bas
 \*        a field operation: integer exponents, floor / ceil / round)
 \*   free TRUE when u is not determined (then u = NoUnit as a placeholder)
 \*   opt  TRUE when the tool may also refuse (an offset scale used as an interval, C09)
-Val(si, dims, u, q) == [k |-> "val", v |-> [si |-> si, dims |-> dims, u |-> u, free |-> FALSE, q |-> q, opt |-> FALSE]]
-FreeVal(si, dims) == [k |-> "val", v |-> [si |-> si, dims |-> dims, u |-> NoUnit, free |-> TRUE, q |-> Unknown, opt |-> FALSE]]
+\*   lit  the canonical decimal (sign, digits, power of ten) when the number was written as a literal: lets the rounding
+\*        functions be decided on numbers of any size (digit arithmetic, no big numbers); NoLit otherwise
+NoLit == [neg |-> FALSE, ds |-> <<>>, e |-> 0, some |-> FALSE]
+Val(si, dims, u, q) == [k |-> "val", v |-> [si |-> si, dims |-> dims, u |-> u, free |-> FALSE, q |-> q, opt |-> FALSE, lit |-> NoLit]]
+FreeVal(si, dims) == [k |-> "val", v |-> [si |-> si, dims |-> dims, u |-> NoUnit, free |-> TRUE, q |-> Unknown, opt |-> FALSE, lit |-> NoLit]]
+WithLit(x, d) == IF x.k = "val" THEN [x EXCEPT !.v.lit = [neg |-> d.neg, ds |-> d.ds, e |-> d.e, some |-> TRUE]] ELSE x
 Opt(x) == IF x.k = "val" THEN [x EXCEPT !.v.opt = TRUE] ELSE x
 Dz == [k |-> "dz"]
 Err == [k |-> "err"]
@@ -53,7 +57,7 @@ LitQ(d) ==   \* exact small rational of a canonical literal, if small
 LitR(d) == LET v == RMul(RDigits(d.ds), RPow(RInt(10), d.e)) IN IF d.neg THEN RNeg(v) ELSE v
 LitVal(chars) ==
   IF ~WellFormed(chars) THEN Err
-  ELSE LET d == Denote(chars) IN Quantity(LitR(d), LitQ(d), NoUnit)
+  ELSE LET d == Denote(chars) IN WithLit(Quantity(LitR(d), LitQ(d), NoUnit), d)
 
 \* ---- zero test: exact when the small rational is known, otherwise "zero for all four primes"
 \* (the harness confirms exactly before that can become an alarm)
@@ -75,19 +79,40 @@ RoundN(x, n) ==     \* round(x * 10^n) / 10^n
       y == QMul(x, sc) IN
   IF ~Known(y) \/ ~Known(sc) THEN Unknown ELSE QDiv(<<QRound(y), 1>>, sc)
 Carry(a, q) == IF Known(q) /\ ~a.free THEN Quantity(QRes(q), q, a.u) ELSE Ood
+\* ---- the same functions on a literal of any size, by digit arithmetic on its canonical form (neg, ds, e):
+\* value = +-ds * 10^e, ds without leading / trailing zeros (<<>> = 0)
+ZeroSeq(n) == [i \in 1..n |-> 0]
+IntDigitsOf(d) == IF d.e >= 0 THEN d.ds \o ZeroSeq(d.e)
+                  ELSE IF Len(d.ds) + d.e > 0 THEN SubSeq(d.ds, 1, Len(d.ds) + d.e) ELSE <<>>
+HasFraction(d) == d.e < 0 /\ d.ds # <<>>
+FirstFracDigit(d) == IF d.e >= 0 THEN 0 ELSE IF Len(d.ds) + d.e >= 0 THEN d.ds[Len(d.ds) + d.e + 1] ELSE 0
+RECURSIVE IncDigits(_, _)
+IncDigits(ds, i) == IF i = 0 THEN <<1>> \o ds
+                    ELSE IF ds[i] < 9 THEN [ds EXCEPT ![i] = @ + 1] ELSE IncDigits([ds EXCEPT ![i] = 0], i - 1)
+Inc(ds) == IncDigits(ds, Len(ds))
+\* magnitude digits and sign of floor / ceil / round(half away from zero) of the literal d
+FloorLit(d) == IF d.neg /\ HasFraction(d) THEN [neg |-> TRUE, ds |-> Inc(IntDigitsOf(d))] ELSE [neg |-> d.neg, ds |-> IntDigitsOf(d)]
+CeilLit(d) == IF ~d.neg /\ HasFraction(d) THEN [neg |-> FALSE, ds |-> Inc(IntDigitsOf(d))] ELSE [neg |-> d.neg, ds |-> IntDigitsOf(d)]
+RoundLit(d) == [neg |-> d.neg, ds |-> IF FirstFracDigit(d) >= 5 THEN Inc(IntDigitsOf(d)) ELSE IntDigitsOf(d)]
+IntResidues(x) == IF x.neg THEN RNeg(RDigits(x.ds)) ELSE RDigits(x.ds)
+\* the result as a quantity in the argument's unit: integer x times 10^-n
+CarryLit(a, x, n) == IF a.free THEN Ood ELSE Quantity(RMul(IntResidues(x), RPow(RInt(10), 0 - n)), Unknown, a.u)
+Shift(d, n) == [d EXCEPT !.e = @ + n]
 Builtin(name, args) ==
   IF name \in {"floor", "ceil"} THEN
        IF Len(args) # 1 THEN Err
-       ELSE IF ~Known(args[1].q) THEN Ood
+       ELSE IF ~Known(args[1].q) THEN (IF args[1].lit.some THEN CarryLit(args[1], IF name = "floor" THEN FloorLit(args[1].lit) ELSE CeilLit(args[1].lit), 0) ELSE Ood)
        ELSE Carry(args[1], QInt(IF name = "floor" THEN QFloor(args[1].q) ELSE QCeil(args[1].q)))
   ELSE IF name = "round" THEN
        IF Len(args) = 0 \/ Len(args) > 2 THEN Err
-       ELSE IF ~Known(args[1].q) THEN Ood
-       ELSE IF Len(args) = 1 THEN Carry(args[1], QInt(QRound(args[1].q)))
+       ELSE IF ~Known(args[1].q) /\ ~args[1].lit.some THEN Ood
+       ELSE IF Len(args) = 1 THEN (IF Known(args[1].q) THEN Carry(args[1], QInt(QRound(args[1].q))) ELSE CarryLit(args[1], RoundLit(args[1].lit), 0))
        ELSE IF ~Known(args[2].q) \/ ~Plain(args[2]) THEN Ood
        ELSE IF ~QIsInt(args[2].q) THEN Ood      \* a fractional digit count: not specified
        ELSE IF args[2].q[1] > 6 \/ args[2].q[1] < -6 THEN Ood
-       ELSE Carry(args[1], RoundN(args[1].q, args[2].q[1]))
+       ELSE IF Known(args[1].q) /\ Known(RoundN(args[1].q, args[2].q[1])) THEN Carry(args[1], RoundN(args[1].q, args[2].q[1]))
+       ELSE IF args[1].lit.some THEN CarryLit(args[1], RoundLit(Shift(args[1].lit, args[2].q[1])), args[2].q[1])
+       ELSE Ood
   ELSE IF name \in {"sin", "cos"} THEN (IF Len(args) = 1 THEN Ood ELSE Err)
   ELSE Err
 
@@ -206,7 +231,7 @@ EvalAst(s, toks, ast) ==
                         ELSE IF u.multi THEN (IF \E j \in 1..Len(u.fs) : u.fs[j].u \in UOffsetKeys THEN Ood
                                               ELSE Opt(FreeVal(RMul(x.v.si, ScaleOfList(u.fs, 1)), DimsOfList(u.fs, 1))))
                         ELSE IF HasOffset(u.c) /\ ~Temperature THEN Ood
-                        ELSE Quantity(x.v.si, x.v.q, u.c)
+                        ELSE [Quantity(x.v.si, x.v.q, u.c) EXCEPT !.v.lit = x.v.lit]
     [] ast.t = "bin" -> LET r == EvalAst(s, toks, ast.r)       \* the tool evaluates the right operand first
                             l == EvalAst(s, toks, ast.l) IN
                         IF r.k = "ood" \/ l.k = "ood" THEN Ood
